@@ -50,11 +50,12 @@ def scan_repo(repo):
             a = a.split("::")[-1]
             b = b.split("::")[-1]
             impls.append(("hand_try" if tr else "hand_from", a, b))
-    # classify hand-written impls like the macro kinds
+    # classify every impl by its shape (fallible or not, source and target kind) rather than by
+    # the macro's name, so that a renamed or newly introduced macro is still covered
     fixed = []
     for kind, a, b in impls:
-        if kind.startswith("hand_"):
-            t = "try_" if kind == "hand_try" else ""
+        if True:
+            t = "try_" if ("try_" in kind or kind == "hand_try") else ""
             if a in newtypes and b in newtypes:
                 kind = "impl_%sfrom_newtype_to_newtype" % t
             elif a in PRIMS and b in newtypes:
